@@ -25,17 +25,17 @@ CHECKS = {
    technique="bounded-exhaustive history x configuration enumeration with a metamorphic oracle + explicit-state search with a clock invariant",
    ref="DESIGN.md §4 C06"),
  "C07": dict(
-   text="Deviation-bounded choice-tree search over settings histories (kind chord/rest free; each present setting of bpm, meter, key, velocity, txt, lic, mrk is one deviation; length <= 3 with <= 3/4 deviations, length <= 4 with <= 2/3, also with repeated values), value sweeps of every setting at instance 0 and after a rest, in-process, through the binary and as flags (34 tempos across the byte/16/24/32/63/64-bit boundaries, 28 meters incl. those a MIDI file cannot state - these must be refused -, 28 keys, 6 dynamics, 17 texts incl. 127/128/16383/16384-byte ones), 16 flag subsets x 256 two-instance documents and rest-first documents, YAML spellings (aliases, flow style), long documents: periodic pieces of 130 and 300 (thorough: 1100) instances with exactly one deviation (key change, key repeated, tempo, meter, dynamic, text, 700-beat rest, 1/64 value, other symbol / degree / bass, two values, chord<->rest) at every position (130) or every counting boundary 63..257 (300), and an explicit-state search of the real midiArgs cells to fixpoint (243 value-class states x 64 operations, emitted calls compared as multisets on every edge). YAML spellings of a piece (3 pieces incl. a one-line document of 85 kB x 12 spellings: aliases, flow/JSON, comments, markers, directive, BOM, CR LF, indentation) must give the file of the plain spelling.",
+   text="Deviation-bounded choice-tree search over settings histories (kind chord/rest free; each present setting of bpm, meter, key, velocity, txt, lic, mrk is one deviation; length <= 3 with <= 3/4 deviations, length <= 4 with <= 2/3, also with repeated values), value sweeps of every setting at instance 0 and after a rest, in-process, through the binary and as flags (34 tempos across the byte/16/24/32/63/64-bit boundaries, 28 meters incl. those a MIDI file cannot state - these must be refused -, 28 keys, 6 dynamics, 17 texts incl. 127/128/16383/16384-byte ones), 16 flag subsets x 256 two-instance documents and rest-first documents, YAML spellings (aliases, flow style), long documents: periodic pieces of 130 and 300 (thorough: 1100) instances with exactly one deviation (key change, key repeated, tempo, meter, dynamic, text, 700-beat rest, 1/64 value, other symbol / degree / bass, two values, chord<->rest) at every position (130) or every counting boundary 63..257 (300), and an explicit-state search of the real midiArgs cells to fixpoint (243 value-class states x 64 operations, emitted calls compared as multisets on every edge). YAML spellings of a piece (3 pieces incl. a one-line document of 85 kB x 12 spellings: aliases, flow/JSON, comments, markers, directive, BOM, CR LF, indentation) must give the file of the plain spelling. Settings written in chord text (each setting on a chord, on a rest, after the rest, on a trailing rest) through `text conv degree | write`.",
    note="Trusted: ref/play, ref/theory, ref/smf; velocities are learned from the run (order, not numbers, is prescribed). Unbounded only for the midiArgs graph under its stated abstraction.",
    technique="deviation-bounded stateless search + explicit-state BFS to fixpoint on the real settings machine vs. reference model",
    ref="DESIGN.md §4 C07"),
  "C08": dict(
-   text="Every file produced for all histories up to length 2/3 over 15 instance shapes (incl. out-of-range degrees, bass doubling a tone, lowest pitch, 200-byte text, extreme tempo/meter) x track counts up to 256 (and 1000), every --program 0..255, instrument names around the VLQ boundary, over-long durations around 2^28 ticks, long documents: periodic pieces of 130 and 300 (thorough: 1100) instances with exactly one deviation (key change, key repeated, tempo, meter, dynamic, text, 700-beat rest, 1/64 value, other symbol / degree / bass, two values, chord<->rest) at every position (130) or every counting boundary 63..257 (300) x N in {1,3}, through the binary and in-process, parsed by a strict SMF reader written from the specification that shares no code with the writer; format/ntrks/one-EOT-last/balanced notes/control events in track 0. YAML spellings of a piece (3 pieces incl. a one-line document of 85 kB x 12 spellings: aliases, flow/JSON, comments, markers, directive, BOM, CR LF, indentation) must give the file of the plain spelling. User chords of up to 40 tones x track counts up to 256.",
+   text="Every file produced for all histories up to length 2/3 over 15 instance shapes (incl. out-of-range degrees, bass doubling a tone, lowest pitch, 200-byte text, extreme tempo/meter) x track counts up to 256 (and 1000), every --program 0..255, instrument names around the VLQ boundary, over-long durations around 2^28 ticks, long documents: periodic pieces of 130 and 300 (thorough: 1100) instances with exactly one deviation (key change, key repeated, tempo, meter, dynamic, text, 700-beat rest, 1/64 value, other symbol / degree / bass, two values, chord<->rest) at every position (130) or every counting boundary 63..257 (300) x N in {1,3}, through the binary and in-process, parsed by a strict SMF reader written from the specification that shares no code with the writer; format/ntrks/one-EOT-last/balanced notes/control events in track 0. YAML spellings of a piece (3 pieces incl. a one-line document of 85 kB x 12 spellings: aliases, flow/JSON, comments, markers, directive, BOM, CR LF, indentation) must give the file of the plain spelling. User chords of up to 40 tones x track counts up to 256. Track counts at the header limit (32767 .. 131071): refused or strictly well-formed.",
    note="Trusted: ref/smf. Bounded by the stated alphabets; N >= 65536 excluded.",
    technique="bounded-exhaustive enumeration of documents x configurations on the real code vs. a strict independent SMF decoder",
    ref="DESIGN.md §4 C08"),
  "C12": dict(
-   text="The real sources of nondeterminism are put under the explorer's control, on code rewritten from the working tree at check time (go build -overlay, nothing committed): (1) every map-iteration site is driven, per command-input and per site it reaches, through all rotations of the sorted and of the reversed key order (a family that puts every key first and every pair in both orders; pairs of sites in thorough), each vector one run of the rewritten binary compared byte-for-byte with the default order and with the plain binary; (2) goroutines, channels, select, mutexes, wait groups and Once run under a cooperative scheduler: the AST classifier against a sequential reference walk (all interleavings for trees of <= 2 chords, 224 808 schedules each; preemption-bounded for 8- and 40-chord trees), the whole `text conv` path from inside package main (<= 5 preemptions quick, all interleavings thorough on 2-chord texts; bounded on 3..600-chord texts), and every other command line (35: write, write event/parse/conv, info *, gen, user dictionaries) executed through cobra under the scheduler with preemption bound 2/3 - every schedule must give the bytes and verdict of the default schedule, no deadlock, no panic; (3) the finite product of I/O paths {stdin, -, FILE, stdin in pieces, FIFO, /dev/stdin} x {stdout, -o new, -o existing} x --debug; supplementary free-running repetition under GOMAXPROCS 1/2/16, other environments, a re-run two seconds later and a -race pass (thorough).",
+   text="The real sources of nondeterminism are put under the explorer's control, on code rewritten from the working tree at check time (go build -overlay, nothing committed): (1) every map-iteration site is driven, per command-input and per site it reaches, through all rotations of the sorted and of the reversed key order (a family that puts every key first and every pair in both orders; pairs of sites in thorough), each vector one run of the rewritten binary compared byte-for-byte with the default order and with the plain binary; (2) goroutines, channels, select, mutexes, wait groups and Once run under a cooperative scheduler: the AST classifier against a sequential reference walk (all interleavings for trees of <= 2 chords, 224 808 schedules each; preemption-bounded for 8- and 40-chord trees), the whole `text conv` path from inside package main (<= 5 preemptions quick, all interleavings thorough on 2-chord texts; bounded on 3..600-chord texts), and every other command line (35: write, write event/parse/conv, info *, gen, user dictionaries) executed through cobra under the scheduler with preemption bound 2/3 - every schedule must give the bytes and verdict of the default schedule, no deadlock, no panic; (3) the finite product of I/O paths {stdin, -, FILE, stdin in pieces, FIFO, /dev/stdin} x {stdout, -o new, -o existing} x --debug; supplementary free-running repetition under GOMAXPROCS 1/2/16, other environments, a re-run two seconds later and a -race pass (thorough). Every command line runs through main() itself under the scheduler (os.Exit in package main rewritten); help texts are output too; once per command stdout is a character device and stdin's first byte arrives after 3 s.",
    note="Scheduling points are the synchronisation operations; real memory-ordering effects are outside (supplementary -race pass only). A construct the scheduler does not model (select, atomics, timers) yields no verdict for that part (exhaustive:false), never a guess.",
    technique="stateless model checking of the real goroutine code under a controlled scheduler (preemption-bounded DFS) + exhaustive enumeration of controlled map-iteration orders and I/O configurations",
    ref="DESIGN.md §4 C12"),
@@ -45,7 +45,7 @@ CHECKS = {
    technique="exhaustive explicit enumeration of all 42 key states x 3 observation paths on the real code vs. reference model",
    ref="DESIGN.md §4 C13"),
  "C03": dict(
-   text="Complete enumeration of the space the property quantifies over: 28 keys x 21 roots x (no bass + 21 basses) = 12 936 single chords through `text conv syllable`, in-process (28 converter-scale states x 462 operations) and through the real binary (accepted chords batched per key and byte-compared, refused ones one per run with the failure shape checked); number = letter distance, size = pitch distance mod 12, scale notes mandatory with the scale's own degree.",
+   text="Complete enumeration of the space the property quantifies over: 28 keys x 21 roots x (no bass + 21 basses) = 12 936 single chords through `text conv syllable`, in-process (28 converter-scale states x 462 operations) and through the real binary (accepted chords batched per key and byte-compared, refused ones one per run with the failure shape checked); number = letter distance, size = pitch distance mod 12, scale notes mandatory with the scale's own degree. Every chord with an accidental is also written with the accidentals spelled ♯ / ♭.",
    note="Trusted: ref/theory. Unbounded verdict: the space is finite and enumerated completely.",
    technique="exhaustive enumeration of the finite input space on the real code vs. reference model",
    ref="DESIGN.md §4 C03"),
@@ -55,7 +55,7 @@ CHECKS = {
    technique="bounded-exhaustive enumeration with metamorphic oracles + complete state graph of the converter scale",
    ref="DESIGN.md §4 C05"),
  "C09": dict(
-   text="Bounded-exhaustive deviations from valid inputs and bounded-exhaustive short inputs on every command, observed at the real binary: all chord texts <= 2/3 over 22 symbols on the three text commands and all YAML strings <= 2 on the four write commands; every one-deviation byte mutant (truncation, deletion, replacement/insertion by 20 bytes at every position) of valid chord texts, instance documents and dictionary files; the complete nonsense table (value x channel {text metadata, YAML field, flag} x interpreting command, each also with -o, pass-through nonsense piped into write); a flag-value table; --debug variants; plus in-process sweeps one symbol longer with clock-free hang detection. Oracle: terminates, no panic/fatal/signal, exit 0 or (exit != 0, stderr diagnostic, empty stdout, -o empty/absent); nonsense refused by the first interpreting stage. Also: every data-producing command x destinations that cannot take the result (full device, missing directory, directory, read-only file) and sources that cannot be read; 2..300 dictionary files; pairs of write flags; track counts around 2^15/2^16; a panic recovered by fmt counts as a crash; neutral arguments (flags at their empty/zero default, /dev/null as empty stdin, 18 awkward file names) must not change the result.",
+   text="Bounded-exhaustive deviations from valid inputs and bounded-exhaustive short inputs on every command, observed at the real binary: all chord texts <= 2/3 over 22 symbols on the three text commands and all YAML strings <= 2 on the four write commands; every one-deviation byte mutant (truncation, deletion, replacement/insertion by 20 bytes at every position) of valid chord texts, instance documents and dictionary files; the complete nonsense table (value x channel {text metadata, YAML field, flag} x interpreting command, each also with -o, pass-through nonsense piped into write); a flag-value table; --debug variants; plus in-process sweeps one symbol longer with clock-free hang detection. Oracle: terminates, no panic/fatal/signal, exit 0 or (exit != 0, stderr diagnostic, empty stdout, -o empty/absent); nonsense refused by the first interpreting stage. Also: every data-producing command x destinations that cannot take the result (full device, missing directory, directory, read-only file) and sources that cannot be read; 2..300 dictionary files; pairs of write flags; track counts around 2^15/2^16; a panic recovered by fmt counts as a crash; neutral arguments (flags at their empty/zero default, /dev/null as empty stdin, 18 awkward file names) must not change the result. `write play` with every port name, `midi port`, `completion`, `help`.",
    note="Hang watchdog is wall clock but lax and re-run (10 s, then 3 x 30 s). One open known finding (goyacc trace on stdout under --debug). Bounded by input length and one deviation.",
    technique="deviation-bounded exhaustive fault/input enumeration against the real binary with a failure-shape oracle",
    ref="DESIGN.md §4 C09"),
@@ -65,7 +65,7 @@ CHECKS = {
    technique="exhaustive enumeration of value spaces through the real print/parse pair + bounded-exhaustive pipeline histories vs. reference model",
    ref="DESIGN.md §4 C10"),
  "C11": dict(
-   text="Deviation-bounded choice-tree search over spelling variants of every accepted token sequence of chords.y up to 9/12 tokens in both notations: every inter-token gap (8 trivia choices incl. compound comment+newline trivia), leading whitespace inside braces, optional `_`, leading zeros, ASCII vs Unicode accidentals; <= 2/3 deviations (full product for short sentences in thorough); text conv must print the same bytes and give the same verdict as for the canonical spelling, in-process and (1 deviation) through the binary; 11 look-alike accidental characters; Unicode-spelled keys and notes through all 9 doors a key or note can come through (text metadata, --key of four commands, key: in YAML, describe targets and roots).",
+   text="Deviation-bounded choice-tree search over spelling variants of every accepted token sequence of chords.y up to 9/12 tokens in both notations: every inter-token gap (8 trivia choices incl. compound comment+newline trivia), leading whitespace inside braces, optional `_`, leading zeros, ASCII vs Unicode accidentals; <= 2/3 deviations (full product for short sentences in thorough); text conv must print the same bytes and give the same verdict as for the canonical spelling, in-process and (1 deviation) through the binary; 11 look-alike accidental characters; Unicode-spelled keys and notes through all 9 doors a key or note can come through (text metadata, --key of four commands, key: in YAML, describe targets and roots). Duration numbers that read differently in another base (10, 8, 9, 16) with up to 30 leading zeros.",
    note="Metamorphic; the documented tokeniser decides which variants are spellings of the same tokens.",
    technique="deviation-bounded stateless search over spelling choices with a metamorphic oracle",
    ref="DESIGN.md §4 C11"),
@@ -85,7 +85,7 @@ CHECKS = {
    technique="exhaustive small-scope enumeration of dictionaries on the real loader vs. reference loader",
    ref="DESIGN.md §4 C16"),
  "C17": dict(
-   text="Complete: 28 keys x 14 chords printed by `info key describe`, checked as notation and fed through `text conv syllable --key K | write --key K` (batched and one by one) with the real binary; sounded interval pattern above each root and scale membership of every pitch class.",
+   text="Complete: 28 keys x 14 chords printed by `info key describe`, checked as notation and fed through `text conv syllable --key K | write --key K` (batched and one by one) with the real binary; sounded interval pattern above each root and scale membership of every pitch class. Six runs per key, all alike.",
    note="Trusted: ref/theory patterns. Unbounded: the space is finite.",
    technique="exhaustive enumeration of the finite space through the whole pipeline vs. reference model",
    ref="DESIGN.md §4 C17"),
